@@ -163,6 +163,25 @@ def run_gen(case, bus, ex):
         if n == "RandomGaussianBlobs":
             ok = np.all(u > -1e-15) and np.all(u < 1 + 1e-15)
             bus.judge("normalisation", 0.0 if ok else 1.0, 0.5, sig + ("range(0,1)",), witness=winfo)
+            if kw.get("num_blobs", 1) == 1:
+                # documented options of a single blob, implementation-independently: log(blob) is an exact separable quadratic in x whose centre lies in
+                # position_range * L and whose variances lie in variance_range * L (least-squares fit on the grid; the blob is NOT periodised)
+                f = (1.0 - u[0]) if kw.get("one_complement") else u[0]
+                X = G.grid(D, L, N)
+                comp = bool(kw.get("one_complement"))
+                sel = f > (1e-4 if comp else 1e-200)          # 1 - (1 - blob) has lost its digits in the tails
+                vr0 = kw.get("variance_range", (0.005, 0.01))[0]
+                if sel.sum() >= 4 * (2 * D + 1) and L / N <= np.sqrt(vr0 * L):          # the grid must resolve the narrowest admissible blob, otherwise the fit is meaningless
+                    A_ = np.stack([np.ones(sel.sum())] + [X[d][sel] for d in range(D)] + [X[d][sel] ** 2 for d in range(D)], axis=1)
+                    coef, *_ = np.linalg.lstsq(A_, np.log(f[sel]), rcond=None)
+                    resid = float(np.max(np.abs(A_ @ coef - np.log(f[sel]))))
+                    var = -0.5 / coef[1 + D:]
+                    pos = coef[1:1 + D] * var
+                    pr, vr = kw.get("position_range", (0.4, 0.6)), kw.get("variance_range", (0.005, 0.01))
+                    inside = bool(np.all(pos >= pr[0] * L - 1e-9) and np.all(pos <= pr[1] * L + 1e-9) and np.all(var >= vr[0] * L - 1e-12) and np.all(var <= vr[1] * L + 1e-12))
+                    scale_log = float(np.max(np.abs(np.log(f[sel])))) + 1.0
+                    bus.judge("shaping", max(resid / scale_log, 0.0 if inside else 1.0), 1e-7 if comp else 1e-9, sig + ("gaussian blob",), sample=dict(info, centre=pos.tolist(), variances=var.tolist()),
+                              witness=dict(winfo, centre=pos.tolist(), variances=var.tolist(), residual=resid, position_range=list(pr), variance_range=list(vr), L=L))
         # ---- wrappers
         if n == "Clamping":
             lo, hi = spec["limits"]
